@@ -367,6 +367,10 @@ class OrderedMultiDict(dict):
             return True
         elif hasattr(other, 'keys'):
             for selfk in self:
+                # membership first: looking a missing key up would make
+                # a defaultdict create (and match) it
+                if selfk not in other:
+                    return False
                 try:
                     if other[selfk] != self[selfk]:
                         return False
